@@ -72,7 +72,7 @@ def showInventory (inv : Inventory) : String :=
         | some c => s!"act {a.ref} {i} {c.action} {c.opts}"
         | none => s!"act {a.ref} {i} MISSING -")
     ++ (enumFrom 0 a.rewards).map (fun (i, r) => s!"rew {a.ref} {i} {r.type} {r.weight} {r.opts}")
-    ++ a.settings.map (fun (k, v) => s!"aset {a.ref} {k} {showOpt id v}")
+    ++ [s!"aset {a.ref} {a.settings}"]
   " | ".intercalate (nodeLines ++ linkLines ++ agentLines)
 
 def showErr : Err → String
@@ -150,7 +150,7 @@ def step (s : St) : List String → St × String
     | some i => updAgent s fun a => { a with actionMap := a.actionMap ++ [(i, { action := nm, opts := opts })] }
     | none => (s, "bad-op")
   | ["reward", ty, w, opts] => updAgent s fun a => { a with rewards := a.rewards ++ [{ type := ty, weight := w, opts := opts }] }
-  | ["setting", k, v] => updAgent s fun a => { a with settings := a.settings ++ [(k, v)] }
+  | ["settings", v] => updAgent s fun a => { a with settings := v }
   | ["build"] =>
     (s, match build s.scenario with
         | .ok inv => showInventory inv
